@@ -64,8 +64,10 @@ MANIFEST_ENTRY = {
             "not, make API calls, return or raise): pre_session_gate (before establishment anything but WELCOME/ABORT/"
             "CHALLENGE, afterwards every handshake message, raises ProtocolError and changes nothing); "
             "api_fails_fast_after_end (without a transport call/publish/subscribe/register raise TransportLost at once and "
-            "record nothing), closed_ends_everything and api_keeps_transport_down (onClose drops the transport whatever the "
-            "hooks do; nothing user code calls brings it back); goodbye_answered_iff_not_initiator (the peer's GOODBYE is "
+            "record nothing), closed_ends_everything, transport_written_only_by_onOpen_and_onClose and "
+            "api_fails_fast_after_end_history (onClose drops the transport whatever the hooks do; NO other event of any "
+            "history — messages, API calls, loop iterations, endpoint completions, whatever user code runs inside — writes it; "
+            "so after onClose, through every continuation that does not open the object again, call() raises at once); goodbye_answered_iff_not_initiator (the peer's GOODBYE is "
             "answered, first thing, exactly when this side sent none; either way the session ends and onLeave runs), "
             "leave_sends_iff and goodbye_at_most_once_steps (leave() sends GOODBYE only in a joined session that sent none "
             "and records it; join(), the only thing that clears the record, is refused while joined); "
@@ -152,12 +154,16 @@ def classify(script, i, v, fw):
     if fw == "asyncio":
         for j in range(start, i + 1):
             if _kind(script[j]) == "m.welcome" and script[j].partition(";")[0].endswith(",-"):
+                run = []
                 for t in script[j + 1:i + 1]:
                     k = _kind(t)
                     if k in ("pump", "tick"):
                         break
-                    if k.startswith("m."):
-                        return "asyncio:message-in-the-loop-iteration-of-welcome:" + k
+                    if k.startswith("m.") and k != "m.other":      # (HELLO / AUTHENTICATE are rejected in every phase)
+                        run.append(k)
+                if run:
+                    # the message the verdict is about if it is one of them, else the first of the run
+                    return "asyncio:message-in-the-loop-iteration-of-welcome:" + (ev if ev in run else run[0])
     # (3) asyncio: the session ends in the loop iteration between the WELCOME continuation and onJoin
     if fw == "asyncio" and clause in ("hook-order,onJoin", "observer-order,ready") and ev in ("pump", "tick"):
         how = [h for (_, h) in ends]
@@ -205,7 +211,8 @@ def base(rng, challenges, outcome, goodbye, nreq, hooks, api_after=True):
     c = Conv(rng)
     P = c.P
     c.add("open;" + h("onConnect"), "open")
-    failed = False
+    # an onConnect override that never calls the default body sends no HELLO: the router has nothing to answer
+    failed = h("onConnect").startswith("n")
     for k in range(challenges):
         c.add("m.challenge;%s!%s" % (h("onChallenge%d" % k), h("onLeaveC")), "challenge")
         if h("onChallenge%d" % k) == RAISE:
@@ -401,7 +408,7 @@ def gen(ctx):
                     nreq = {k: 1 for k in sc.KINDS}
                     out.append(("hook", render(base(rng, ch, outc, gb, nreq, hooks), pump, rng), spec_ok_hooks(hooks)))
     # (d) random: everything at once, several insertions, re-open on the same object
-    nrand = 400 if quick else 30000
+    nrand = 400 if quick else 150000
     for _ in range(nrand):
         ch, outc, gb = rng.choice(shapes)
         hooks = rand_hooks(rng)
